@@ -571,7 +571,7 @@ class MQTTBaseProtocol(Protocol):
         '''
         API Entry Point
         '''
-        if not (0 < n <= self.MAX_WINDOW):
+        if not (1 <= n <= self.MAX_WINDOW):
             raise WindowValueError(n)
         self._window = min(n, self.MAX_WINDOW)
 
